@@ -2,9 +2,10 @@
 from __future__ import annotations
 
 import copy
+import json
 import random
 
-from coqemit import cbool
+from coqemit import cbool, cstr
 from props import serial_common as sc
 
 ID = "C13"
@@ -91,7 +92,82 @@ def gen(tier, seed):
         T = _fix_hooks(sc.norm_unions(sc.gen_dc(rng, depth, namer, opts, kind=kinds[i % 3])))
         v = _sync_meta(T, sc.gen_value(rng, T, opts))
         cases.append(dict(ty=T, val=v, stream="hooks"))
+    # 4. dicts produced with save_dc_types=True: nested dataclasses, a subclass instance in a base-typed field
+    n_typed = 150 if not thorough else 2500
+    made = 0
+    while made < n_typed:
+        c = _typed_case(rng, namer, kinds)
+        if '"_type_"' in json.dumps([c["val"], c["ty"]]):
+            continue                      # a str value / dict key spelled like DC_TYPE_KEY: strip_key would touch it
+        cases.append(c)
+        made += 1
     return cases
+
+
+def _simple_fields(rng, namer, n, prefix, opts):
+    out = []
+    for i in range(n):
+        t = sc.gen_type(rng, rng.choice([0, 1]), namer, dict(opts, kinds=["ser", "frozen", "plain"]))
+        while "dc" in sc.kinds_in(t):
+            t = sc.gen_scalar_type(rng)
+        out.append([f"{prefix}{i}", dict(sc.PLAIN_META), sc.gen_value(rng, t, opts), t])
+    return out
+
+
+def _inst(rng, node, opts):
+    return ["dc", node[1], node[2], [[f[0], f[1], sc.gen_value(rng, f[3], opts)] for f in node[3]]]
+
+
+def _typed_case(rng, namer, kinds):
+    """Container(item: Base, opt: Optional[Base], inner: Inner(item: Base2), xs: List[Base]) where the base-typed fields may
+    hold an instance of a subclass; static tree = annotations, runtime tree = the classes of the instance"""
+    opts = dict(unions=False)
+    bk = rng.choice(kinds)
+
+    def family():
+        b = ["dc", bk, namer.fresh(), _simple_fields(rng, namer, rng.choice([1, 2]), "a", opts)]
+        d = ["dc", bk, namer.fresh(), b[3] + _simple_fields(rng, namer, rng.choice([1, 2]), "b", opts), b[2]]
+        return b, d
+
+    def pick(b, d):
+        node = d if rng.random() < 0.6 else b
+        return node, _inst(rng, node, opts)
+
+    b1, d1 = family()
+    b2, d2 = family()
+    ck, ik = rng.choice(kinds), rng.choice(kinds)
+    n1, v1 = pick(b1, d1)
+    n2, v2 = pick(b2, d2)
+    inner_name, cont_name = namer.fresh(), namer.fresh()
+    other = _simple_fields(rng, namer, 1, "z", opts)[0]
+    use_opt = rng.random() < 0.5
+    n3, v3 = pick(b1, d1)
+    if use_opt and rng.random() < 0.3:
+        n3, v3 = b1, ["none"]
+    xs_val = ["list", [_inst(rng, b1, opts) for _ in range(rng.choice([0, 1, 2]))]]   # container elements: base class only
+
+    def inner(node):
+        return ["dc", ik, inner_name, [["item", dict(sc.PLAIN_META), _inst(rng, b2, opts), node], other]]
+
+    def cont(item_node, opt_node, inner_node):
+        fs = [["item", dict(sc.PLAIN_META), _inst(rng, b1, opts), item_node],
+              ["inner", dict(sc.PLAIN_META), _inst(rng, inner(b2), opts), inner_node],
+              ["xs", dict(sc.PLAIN_META), ["list", []], ["list", b1]]]
+        if use_opt:
+            fs.append(["opt", dict(sc.PLAIN_META), ["none"], ["opt", opt_node]])
+        return ["dc", ck, cont_name, fs]
+
+    static = cont(b1, b1, inner(b2))
+    runtime = cont(n1, n3, inner(n2))
+    # both trees must carry the same defaults (they describe the same classes)
+    for fs, fr in zip(static[3], runtime[3]):
+        fr[2] = fs[2]
+    runtime[3][1][3][3][0][2] = static[3][1][3][3][0][2]
+    inner_val = ["dc", ik, inner_name, [["item", dict(sc.PLAIN_META), v2], [other[0], other[1], sc.gen_value(rng, other[3], opts)]]]
+    fields = [["item", dict(sc.PLAIN_META), v1], ["inner", dict(sc.PLAIN_META), inner_val], ["xs", dict(sc.PLAIN_META), xs_val]]
+    if use_opt:
+        fields.append(["opt", dict(sc.PLAIN_META), v3])
+    return dict(ty=static, rty=runtime, val=["dc", ck, cont_name, fields], stream="typed")
 
 
 # --------------------------------------------------------------------------------------------------
@@ -246,7 +322,8 @@ def run_impl(cases):
     for case in cases:
         T = case["ty"]
         try:
-            ns = sc.build(T)
+            typed = case.get("rty") is not None
+            ns = sc.build(T, (case["rty"],), True) if typed else sc.build(T)
             x = sc.mk(ns, case["val"])
             cls = ns[T[2]]
         except Exception as e:  # noqa: BLE001
@@ -254,8 +331,8 @@ def run_impl(cases):
             continue
         kind = T[1]
 
-        def to_dict(o):
-            return o.to_dict() if kind != "plain" else S.to_dict(o)
+        def to_dict(o, **kw):
+            return o.to_dict(**kw) if kind != "plain" else S.to_dict(o, **kw)
 
         def from_dict(d):
             return cls.from_dict(d) if kind != "plain" else S.from_dict(cls, d)
@@ -265,19 +342,22 @@ def run_impl(cases):
         td = outcome_of(lambda: to_dict(x))
         if td[0] != "ok":
             out.append(dict(setup_failed=None, val=before, todict=["raise", td[1]], json=False, yaml=False, fresh=True,
-                            input_ok=_snap_py(x) == snap_x, arg=["none"], frm=["raise", "NoDict"], arg_ok=True, from_fresh=True, twin=None))
+                            input_ok=_snap_py(x) == snap_x, arg=["none"], frm=["raise", "NoDict"], frm2=["raise", "NoDict"], arg_ok=True, from_fresh=True, twin=None))
             continue
         d = td[1]
         input_ok = _snap_py(x) == snap_x
         j = outcome_of(lambda: json.dumps(d))[0] == "ok"
         y = outcome_of(lambda: yaml.safe_dump(d))[0] == "ok"
         fresh = _probe_pair(x, d)
-        d2 = to_dict(x)
+        d2 = to_dict(x, save_dc_types=True) if typed else to_dict(x)
         _strip_enc_only(before, d2)
         arg = sc.canon_prim(d2)
         snap_d2 = _snap_py(d2)
         r = outcome_of(lambda: from_dict(d2))
         arg_ok = _snap_py(d2) == snap_d2
+        r2 = outcome_of(lambda: from_dict(d2))          # the very same dict, a second time
+        arg_ok = arg_ok and _snap_py(d2) == snap_d2
+        frm2 = ["ok", sc.canon(ns, r2[1], True)] if r2[0] == "ok" else ["raise", r2[1] if r2[0] == "raise" else r2[0]]
         if r[0] == "ok":
             frm = ["ok", sc.canon(ns, r[1], True)]
             from_fresh = _probe_pair(r[1], d2)
@@ -291,7 +371,7 @@ def run_impl(cases):
                 t2 = outcome_of(lambda: to_dict(x2))
                 twin = ["ok", sc.canon_prim(t2[1])] if t2[0] == "ok" else ["raise", t2[1]]
         out.append(dict(setup_failed=None, val=before, todict=["ok", sc.canon_prim(d)], json=j, yaml=y, fresh=fresh,
-                        input_ok=input_ok, arg=arg, frm=frm, arg_ok=arg_ok, from_fresh=from_fresh, twin=twin))
+                        input_ok=input_ok, arg=arg, frm=frm, frm2=frm2, arg_ok=arg_ok, from_fresh=from_fresh, twin=twin))
     return out
 
 
@@ -392,6 +472,8 @@ def judge(case, obs):
         return ("to_dict-mutates-input", "to_dict changed the instance")
     if not obs["arg_ok"]:
         return ("from_dict-mutates-argument", "from_dict changed its argument")
+    if obs["frm2"] != obs["frm"]:
+        return ("from_dict-second-decode-differs", "decoding the same dict a second time gives a different result")
     if not obs["from_fresh"]:
         return ("from_dict-aliases-argument", "the instance built by from_dict shares a mutable node with the argument")
     hv = hooks_violation(obs["val"], p)
@@ -432,20 +514,23 @@ def features(case, obs):
             "skip": sum(1 for m in metas if not m["incl"]), "enc": sum(1 for m in metas if m["enc"] is not None),
             "dec": sum(1 for m in metas if m["dec"] is not None), "twin": obs["twin"] is not None,
             "from": obs["frm"][0] if obs["frm"][0] == "ok" else "raise:" + obs["frm"][1],
-            "has_set": "set" in ks, "tuple_keys": "dict[tup]" in ks, "nested_dc": len(sc.dcs_in(case["ty"])) > 1}
+            "typed": case.get("rty") is not None, "has_set": "set" in ks, "tuple_keys": "dict[tup]" in ks, "nested_dc": len(sc.dcs_in(case["ty"])) > 1}
 
 
 def to_coq(case, obs):
     if obs.get("setup_failed"):
-        return (f"mkcase {sc.cty(case['ty'])} VNone (Err (Raise \"SetupFailed\")) false false false false PNone "
-                f"(Err (Raise \"SetupFailed\")) false false None")
+        return (f"mkcase {sc.cty(case['ty'])} VNone (Err (Raise \"SetupFailed\")) false false false false PNone None "
+                f"(Err (Raise \"SetupFailed\")) (Err (Raise \"SetupFailed\")) false false None")
+    typed = "None" if case.get("rty") is None else f"(Some ({cstr(sc.TYPES_MODULE)}, {sc.cty(case['rty'])}))"
     twin = "None" if obs["twin"] is None else f"(Some {sc.cres(obs['twin'], sc.cprim)})"
     return (f"mkcase {sc.cty(case['ty'])} {sc.cvalue(obs['val'])} {sc.cres(obs['todict'], sc.cprim)} {cbool(obs['json'])} "
-            f"{cbool(obs['yaml'])} {cbool(obs['fresh'])} {cbool(obs['input_ok'])} {sc.cprim(obs['arg'])} {sc.cres(obs['frm'], sc.cvalue)} "
+            f"{cbool(obs['yaml'])} {cbool(obs['fresh'])} {cbool(obs['input_ok'])} {sc.cprim(obs['arg'])} {typed} {sc.cres(obs['frm'], sc.cvalue)} {sc.cres(obs['frm2'], sc.cvalue)} "
             f"{cbool(obs['arg_ok'])} {cbool(obs['from_fresh'])} {twin}")
 
 
 def shrink(case):
+    if case.get("rty") is not None:
+        return
     T, v = case["ty"], case["val"]
     n = len(T[3])
     if n > 1:
